@@ -20,6 +20,7 @@ EXPLANATION = (
     "overlays by ContextChain.hashable() covering every Context field; the base-units memo is validated against the "
     "switched cache; Context.from_context writes only the fresh copy. Decides these clauses for all paths, not the "
     "equality of observable answers before/after a sequence of operations.")
+EXPLANATION += ' Also decided (rules added after the second round of seeded changes): Context.from_context carries every field of the original.'
 
 
 def run(ck, ix, tier):
